@@ -61,6 +61,22 @@ def add_guards(ctx, col: Collector, rule: str):
         row('add_table', 'same-full-name', exact([('in', f'{o}.full_name', 'self.table_dict')]), f'{o}.full_name in self.table_dict')
         row('add_table', 'alias-taken', exact([('in', f'{o}.alias', 'self.table_dict')], [('truthy', f'{o}.alias'), ('not', ('none', f'{o}.alias'))]),
             f'{o}.alias in self.table_dict')
+        # the alias must be checked against the KEY index (aliases and full names share it): a check against the other tables' aliases only lets an alias
+        # equal to an existing full name through, and the later store overwrites that key
+        against_keys = against_aliases = False
+        for path in paths_of(fi, 1):
+            if path[-1].kind != 'raise':
+                continue
+            lits = [c for ev in path if ev.kind == 'test' for c in conjuncts(term(ev.node, ev.outcome))]
+            for l in lits:
+                if l[0] == 'in' and l[1] == f'{o}.alias' and 'table_dict' in str(l[2]):
+                    against_keys = True
+                if l[0] == 'eq' and f'{o}.alias' in l[1:] and any(str(x).endswith('.alias') and x != f'{o}.alias' for x in l[1:]):
+                    against_aliases = True
+        if against_aliases and not against_keys:
+            col.bad(rule, 'Database.add_table:alias-taken:against-keys', f'add_table compares `{o}.alias` with the aliases of the stored tables only, not with the keys of '
+                    f'table_dict: an alias equal to the full name of another table (`Table users as "public.orders"`) is accepted and overwrites that table\'s key',
+                    node=fi.node, file=fi.file)
     guarded(col, rule, 'add_table', t)
 
     def e():
